@@ -74,7 +74,7 @@ class VerifyRule(BaseRule):
         if t == "_assert_fingerprint":
             s = st.copy()
             s.ts["ev"] = s.ts.get("ev", ()) + ("fingerprint",)
-            fp = pos[1] if len(pos) > 1 else UNK
+            fp = it.bind_args(node, recv, pos, kw).get("fingerprint") or (pos[1] if len(pos) > 1 else UNK)
             s.ts["fp_arg"] = tuple(sorted(fp.tags)) or (fp.sym,)
             f = st.copy()
             f.ts["check_failed"] = "fingerprint"
@@ -82,7 +82,7 @@ class VerifyRule(BaseRule):
         if t == "_match_hostname":
             s = st.copy()
             s.ts["ev"] = s.ts.get("ev", ()) + ("match_hostname",)
-            nm = pos[1] if len(pos) > 1 else UNK
+            nm = it.bind_args(node, recv, pos, kw).get("asserted_hostname") or (pos[1] if len(pos) > 1 else UNK)
             s.ts["match_name"] = tuple(sorted(nm.tags)) or (nm.sym,)
             f = st.copy()
             f.ts["check_failed"] = "hostname"
@@ -106,7 +106,11 @@ class VerifyRule(BaseRule):
             return ok(const(bool(pos[0].truth)) if pos[0].truth is not None else UNK)
         if t == "is_ipaddress":
             return ok(AV("unk", sym="is_ip"))
-        if isinstance(node.func, ast.Attribute) and node.func.attr in ("strip", "rstrip", "lstrip", "lower", "partition", "rpartition", "split", "rsplit", "removeprefix", "removesuffix", "casefold") and recv is not None:
+        if isinstance(node.func, ast.Attribute) and node.func.attr in ("partition", "rpartition") and recv is not None:
+            # (head, sep, tail): each piece is a piece of the receiver
+            piece = AV("unk", tags=recv.tags, none=False)
+            return ok(AV("tuple", (piece, AV("unk", tags=recv.tags, none=False), piece), truth=True, none=False))
+        if isinstance(node.func, ast.Attribute) and node.func.attr in ("strip", "rstrip", "lstrip", "lower", "split", "rsplit", "removeprefix", "removesuffix", "casefold") and recv is not None:
             return ok(AV("unk", tags=recv.tags, truth=recv.truth if node.func.attr in ("lower", "casefold") else None, none=False))
         if it.resolve_callee(node, recv) in it.inline:
             return None  # interpreted in place
@@ -365,10 +369,14 @@ def run(ctx):
                 return [Out("normal", st, pos[1])]
             if t == "bool" and pos:
                 return [Out("normal", st, AV("unk", truth=pos[0].truth, none=False, sym=pos[0].sym))]
+            if it.resolve_callee(node, recv) in it.inline:
+                return None  # a private helper of the module (e.g. an extracted dot-stripper): interpreted in place
             return [Out("normal", st, UNK)]
 
     crule = ConnectRule()
-    outs, it = run_function(m, cf, crule, hc)
+    from ..rows import helper_closure as _hc8
+    inl8 = {q_ for q_ in _hc8(m, [cf]) - {cf.qual} if q_.rsplit(".", 1)[-1] not in ("_ssl_wrap_socket_and_match_hostname", "_connect_tls_proxy", "_tunnel", "_new_conn", "_match_hostname", "_assert_fingerprint")}
+    outs, it = run_function(m, cf, crule, hc, inline=frozenset(inl8))
     ctx.states += it.budget.steps
     normal = [o for o in outs if o.kind in ("normal", "return")]
     ctx.sites(R2, len(normal), 2, "normal exits of HTTPSConnection.connect")
@@ -564,8 +572,29 @@ def run(ctx):
     for h in hs:
         ok = astq.all_paths_end_in(h.body, lambda s: isinstance(s, ast.Raise) and s.exc is None)
         ctx.ob(R9, mh.qual, f"handler `except {', '.join(astq.handler_type_names(h))}` re-raises", ok, "" if ok else "a certificate that does not match the host is accepted", node=h)
-    calls_ = [c for c in astq.calls(mh.node) if astq.call_text(c) == "match_hostname"]
-    ctx.ob(R9, mh.qual, "delegates to match_hostname(cert, asserted_hostname, ...)", bool(calls_) and astq.text(calls_[0].args[1]) == "asserted_hostname")
+    from ..rows import GenRule as _GR9, effect_rows as _er9, bind as _bind9, helper_closure as _hc9
+    from ..terms import subterms as _sub9
+    mrows = _er9(ctx, mh, _GR9(ctx, mh.module, inline=frozenset(_hc9(m, [mh]) - {mh.qual})), None)
+    pc, ph = "p:" + mh.params()[0], "p:" + mh.params()[1]
+    mfun = m.func("urllib3.util.ssl_match_hostname.match_hostname")
+    nmh = 0
+    seen9 = set()
+    for r_ in mrows:
+        cs = [e_ for e_ in r_.events("call") if e_[1].endswith("match_hostname") and not e_[1].endswith("_match_hostname")]
+        if r_.returns and not cs:
+            ctx.ob(R9, mh.qual, "every returning path went through match_hostname", False, "a path returns without matching the certificate", witness=r_.witness(), node=mh.node)
+        for e_ in cs:
+            nmh += 1
+            b_ = _bind9(mfun.params(), [a_ for a_ in e_[2:] if isinstance(a_, str)])
+            k_ = (b_.get("cert"), b_.get("hostname"))
+            if k_ in seen9:
+                continue
+            seen9.add(k_)
+            okc = b_.get("cert") == pc
+            okh = ph in set(_sub9(b_.get("hostname") or ""))
+            ctx.ob(R9, mh.qual, f"delegates to match_hostname(cert, <the asserted hostname>, ...) [{b_.get('hostname')}]", okc and okh,
+                   "" if okc and okh else f"match_hostname is given cert={b_.get('cert')} hostname={b_.get('hostname')}: not the peer certificate / the name to assert", witness=r_.witness(), node=mh.node)
+    ctx.sites(R9, nmh, 1, "match_hostname calls on rows of _match_hostname")
 
 
 # ---------------------------------------------------------------------------- R10 shared with C08 (added after seeded change C07/matcher-loses-end-anchor)
